@@ -935,6 +935,8 @@ def body_real_aio_responses(r1):
             model = _model_raw_script_aio(script, prefix)
             ids_r, ids_m = {}, {}
             for k, (rr, mr) in enumerate(zip(real, model)):
+                if script[k]["m"] == "HEAD":
+                    rr, mr = dict(rr, b=""), dict(mr, b="")  # a HEAD answer has no body on the wire
                 a, b = _norm_response(rr, ids_r), _norm_response(mr, ids_m)
                 if a != b:
                     ctx.LAST_EXC = "request %d of %r\n real: %r\nmodel: %r" % (k, [(x["m"], x["p"]) for x in script], a, b)
